@@ -174,6 +174,66 @@ def make_indent(parent, layout, route, twin=False, reind_fixed=0):
     return 'indent_%s_%s_%s%s%s' % (parent, layout, route, '_reind%d' % reind_fixed if reind_fixed else '', '_twin' if twin else ''), cell
 
 
+BUILT = ['txn_value', 'txn_children', 'open_value', 'balance_value', 'posting_value', 'txn_value_meta_cleared']
+
+
+def make_built(kind, twin=False):
+    """The parent is CONSTRUCTED (from_value / from_children) with a symbolic indent_by and placed in a document; the first meta
+    item then created from a plain value must be indented by the parent's indentation followed by that indent_by."""
+    import datetime
+
+    def cell(b0: int, b1: int, b2: int, nb: int, p0: int, p1: int, npi: int) -> None:
+        assert 0 <= b0 <= 1 and 0 <= b1 <= 1 and 0 <= b2 <= 1 and 1 <= nb <= 3 and 0 <= p0 <= 1 and 0 <= p1 <= 1 and 1 <= npi <= 2
+        nb = pick(nb, 1, 3)
+        indent_by = ''.join(UNITS[pick(b, 0, 1)] for b in (b0, b1, b2)[:nb])
+        npi = pick(npi, 1, 2)
+        pind = ''.join(UNITS[pick(p, 0, 1)] for p in (p0, p1)[:npi])
+        with NoTracing():
+            f = docenv.PARSER.parse(docenv.PRE + docenv.POST, M.File)
+            date = datetime.date(2000, 5, 6)
+            own = ''
+            if kind.startswith('txn_value'):
+                meta = {'gone': 'x'} if kind.endswith('cleared') else None
+                m = M.Transaction.from_value(date, None, 'n', [M.Posting.from_value('Assets:A', D('1'), 'USD', indent=pind)], meta=meta, indent_by=indent_by)
+            elif kind == 'txn_children':
+                m = M.Transaction.from_children(M.Date.from_value(date), M.TransactionFlag.from_value('*'), None, M.EscapedString.from_value('n'),
+                                                [M.Posting.from_value('Assets:A', D('1'), 'USD', indent=pind)], indent_by=indent_by)
+            elif kind == 'open_value':
+                m = M.Open.from_value(date, 'Assets:N', ['USD'], indent_by=indent_by)
+            elif kind == 'balance_value':
+                m = M.Balance.from_value(date, 'Assets:N', D('1'), None, 'USD', indent_by=indent_by)
+            else:
+                txn = M.Transaction.from_value(date, None, 'n', [M.Posting.from_value('Assets:A', D('1'), 'USD', indent=pind, indent_by=indent_by)])
+                m = txn.raw_postings[0]
+                own = pind
+                f.raw_directives_with_comments.insert(1, txn)
+            if own == '':
+                f.raw_directives_with_comments.insert(1, m)
+            if kind.endswith('cleared'):
+                del m.meta['gone']
+            what = 'constructed %s with indent_by=%r%s' % (kind, indent_by, (' posting indent %r' % pind) if own else '')
+            check(m.indent_by == indent_by, what, 'the model says its indent_by is', R(m.indent_by))
+            before_lines = text_of(f).split('\n')
+            m.meta['newkey'] = 'v'
+            if twin:
+                raise Fail('twin reached the assertion point')
+            it = m.raw_meta['newkey']
+            check(it.indent == own + indent_by, what, 'the first meta item created from a value is indented', R(it.indent), 'expected', R(own + indent_by))
+            after_text = text_of(f)
+            kept = [l for l in after_text.split('\n') if 'newkey:' not in l]
+            check(kept == before_lines, what, 'an existing line changed', R(after_text))
+            docenv.tree_invariant(f, what=what)
+            try:
+                f2 = docenv.PARSER.parse(after_text, M.File)
+            except Exception as e:
+                raise Fail('%s: document no longer parses: %r: %r' % (what, after_text, e))
+            d2 = f2.raw_directives[1]
+            m2 = d2.raw_postings[0] if own else d2
+            check('newkey' in m2.meta and m2.meta['newkey'] == 'v', what, 'after re-parse the new item is not under the same parent', R(after_text))
+
+    return 'built_%s%s' % (kind, '_twin' if twin else ''), cell
+
+
 CELLS = {}
 
 
@@ -198,6 +258,9 @@ for _p in ('posting', 'posting_last'):
                 _reg(make_indent(_p, _l, _r, reind_fixed=_re), {'C18': Q if quick else T}, 600, 'indent/reindent',
                      '%s with meta layout %s, route %s, after the views were read (or not) the posting\'s own indent is changed (%s): indent_by 1..3 units, posting indent 1..2 units'
                      % (_p, _l, _r, ('indent = TAB', 'indent = 3 SP', 'raw_indent = Indent(TAB)', 'raw_indent = Indent(3 SP)')[_re - 1]), cost=30)
+for _k in BUILT:
+    _reg(make_built(_k), {'C18': Q}, 300, 'indent/built', 'parent constructed by %s with indent_by = every string of 1..3 units of {SP,TAB} (posting indent 1..2 units): first meta item created from a value' % _k, cost=10)
+_reg(make_built('txn_value', twin=True), {'C18': Q}, 120, 'indent/built', 'vacuity twin', twin=True, cost=1)
 _reg(make_indent('posting', 'none', 'map_new', twin=True), {'C18': Q}, 120, 'indent', 'vacuity twin', twin=True, cost=1)
 
 FILES = ['autobean_refactor/models/meta_item_internal.py', 'autobean_refactor/models/internal/value_properties.py',
